@@ -80,6 +80,14 @@ def replay (j : Json) : R Verdict := do
       if !reachable && failAt.all (fun k => k ≥ n) then
         if calls != n || a + rj != n then
           pf := pf ++ [s!"C03: budget {n}, nothing else ended the run, but {calls} evaluations were started and the report counts {a} + {rj}"]
+      -- C02 (sample size 1): the reported objective is the minimum over the records with a value
+      if (fieldD j "sampleSize").getNat?.toOption.getD 1 == 1 then
+        let vals := rowObjs.filterMap (fun x => x.getInt?.toOption)
+        match (fieldD o "best").getInt?.toOption, vals with
+        | some b, v0 :: vs =>
+          let mn := vs.foldl min v0
+          if b != mn then pf := pf ++ [s!"C02: the reported best objective (order code {b}) is not the minimum (order code {mn}) of the {vals.length} accepted evaluations in the detailed report"]
+        | _, _ => pure ()
       -- C06: an evaluation that returned NaN is a failure; the run cannot end with a success report
       match failAt with
       | some k => if calls > k && !reachable then
